@@ -91,7 +91,9 @@ CHeaders(s, end) ==
 (* FlowSafe *)
 CData(s, n, end) ==
   /\ s \in Sids /\ st[s] \in {"open", "hs"}
-  /\ n <= swin[s] /\ n <= cwin /\ n <= mfs                     \* C13
+  \* C13 (an EMPTY frame may be sent whatever the windows are - RFC 9113 6.9.1 - e.g. the END_STREAM of
+  \*  an upload whose window a SETTINGS change has made negative)
+  /\ (n = 0 \/ (n <= swin[s] /\ n <= cwin)) /\ n <= mfs
   /\ swin' = [swin EXCEPT ![s] = @ - n] /\ cwin' = cwin - n
   /\ sentBody' = [sentBody EXCEPT ![s] = @ + n]
   /\ st' = [st EXCEPT ![s] = IF end THEN (IF @ = "hs" THEN "closed" ELSE "hc") ELSE @]
